@@ -26,13 +26,13 @@ TEXT = {
          "kernel-checked fault/chunking proof + regenerated import facts + fault injection"),
  "C10": ("§8 C10", "Lean theorems for every visiting order and idempotent title: kept set specification, no duplicates, Size, order/multiplicity independence. Tie: wlnew on the real code (kept set read back through generation, caller slice compared).",
          "kernel-checked normalisation proof over all map orders + differential execution"),
- "C11": ("§8 C11", "Lean theorems: round trip tokenize(concat ts, makeIndices ts) = ts for all token sequences with 1..255-character tokens (any type bytes), error for longer tokens, index size law by kind. Tie: mkidx on the real code with an in-harness round-trip oracle.",
+ "C11": ("§8 C11", "Lean theorems: round trip tokenize(concat ts, makeIndices ts) = ts for all token sequences with 1..255-character tokens (any type bytes), error for longer tokens, index size law by kind; composed with the generators: every password a character recipe returns round-trips with index [0], every password a wordlist recipe returns round-trips when words, title forms and separators are 1..255 characters (C11b); regenerated fact: no shared scratch state. Tie: mkidx on the real code with an in-harness round-trip oracle, concurrent callers included.",
          "kernel-checked round-trip proof + differential execution"),
- "C12": ("§8 C12", "Lean theorems: tokenize is total (no panic constructor reachable: the model is a total function whose error cases are exactly the listed ones), successful results are consecutive slices (prefix law) with the index's character counts. Tie: malformed-index stream on the real Tokenize with panic capture; explode vs strings.Split.",
+ "C12": ("§8 C12", "Lean theorems: tokenize is total (no panic constructor reachable: the model is a total function whose error cases are exactly the listed ones), successful results are consecutive slices (prefix law) with the index's character counts; regenerated fact: no shared scratch state (C12b). Tie: malformed-index stream on the real Tokenize with panic capture, non-finite entropies compared bit for bit, concurrent callers decoding different strings; explode vs strings.Split.",
          "kernel-checked totality/prefix proof + malformed-input differential execution"),
  "C13": ("§8 C13", "Lean theorems: error iff guard/pre-flight/all attempts invalid; attempts bounded by MaxTrials*Length draws; acceptable at single-attempt chance >= 0.1 with the default budget; wordlist errors exactly for missing/empty list or bad length. Tie: chargen/charinfo/wlgen incl. zero-valued recipes and all-fail tapes.",
          "kernel-checked error-iff proof + differential execution"),
- "C14": ("§8 C14", "PARTIAL: Lean theorem that calls with no shared writes cannot race and return what they return alone, over footprints; regenerated facts (receivers, shared writes, pointer-method call sites) compared with expectations by decide. Runtime tie: Go race detector stress on shared recipes/lists/presets. The Go memory model and golang-set internals are outside the model.",
+ "C14": ("§8 C14", "PARTIAL: Lean theorem that calls with no shared writes cannot race and return what they return alone, over footprints; regenerated facts (receivers, shared writes, pointer-method call sites) compared with expectations by decide. Runtime tie: Go race detector stress on shared recipes/lists/presets, a crowd phase (300 goroutines held in every step of the same call) and a phase after recovered source faults. The Go memory model and golang-set internals are outside the model.",
          "kernel-checked interleaving theorem over extracted footprints + regenerated write facts + race detector"),
  "C15": ("§8 C15", "Lean model functions are pure in the public fields; theorems: results are functions of the public fields and the tape (history independence by construction and by induction over operation lists). Tie: histories on long-lived real objects with in-place field updates, every call compared with the stateless model; caller slices and fields compared before/after.",
          "kernel-checked history-independence + history differential execution"),
